@@ -239,10 +239,12 @@ theorem static_of {c c' : Cfg} {tid : Tid} {t t' : PThread} (hs : Static c) (ht 
     (hkC : t'.isProd = false →
       ((t'.cpc = .boot ∨ t'.cpc = .submit) → t'.q.prog.kind = .batch ∧ t'.q.pc = .start ∧ t'.q.result = []) ∧
       (t'.cpc = .iter → t'.q.prog.kind = .batch) ∧ (t'.cpc = .stopping → t'.q.prog = .stopper none))
-    (hseq : t'.isProd = true → seqOf t'.q = []) : Static c' := by
+    (hseq : t'.isProd = true → seqOf t'.q = [])
+    (hend : t'.isProd = false → (t'.cpc = .shutdown ∨ t'.cpc = .fin) → t'.q.pc = .done ∧ t'.q.result = [])
+    (hce : t'.isProd = false → t'.emitted = [] ∧ t'.pulled = []) : Static c' := by
   have htid : tid < c.ths.length := by
     rcases List.getElem?_eq_some_iff.mp ht with ⟨h, _⟩; exact h
-  refine ⟨hto, ?_, ?_, ?_, ?_⟩
+  refine ⟨hto, ?_, ?_, ?_, ?_, ?_, ?_⟩
   · intro u tu hu
     rw [hths] at hu
     by_cases hut : u = tid
@@ -263,6 +265,14 @@ theorem static_of {c c' : Cfg} {tid : Tid} {t t' : PThread} (hs : Static c) (ht 
     rcases List.mem_or_eq_of_mem_set hu with hu | rfl
     · exact hs.seqP u hu
     · exact hseq
+  · intro u hu; rw [hths] at hu
+    rcases List.mem_or_eq_of_mem_set hu with hu | rfl
+    · exact hs.endC u hu
+    · exact hend
+  · intro u hu; rw [hths] at hu
+    rcases List.mem_or_eq_of_mem_set hu with hu | rfl
+    · exact hs.consE u hu
+    · exact hce
 
 theorem static_step {c c' : Cfg} {tid : Tid} {alt : Bool} {lbl : String} {t : PThread}
     (hs : Static c) (hi : DataInv (qcfg c)) (ht : c.ths[tid]? = some t)
@@ -272,21 +282,23 @@ theorem static_step {c c' : Cfg} {tid : Tid} {alt : Bool} {lbl : String} {t : PT
   cases hk with
   | pstart hp hpc =>
     refine static_of hs ht rfl rfl hs.timeout (fun _ => hs.kindP t hmem hp) (fun h => by simp [hp] at h) ?_
+      (fun h => by simp [hp] at h) (fun h => by simp [hp] at h)
     intro _
     have := hs.seqP t hmem hp
     rw [← this]; exact seqOf_eq rfl rfl (by rw [hpc]; rfl) rfl
   | iacq hp =>
     exact static_of hs ht rfl rfl hs.timeout (fun _ => hs.kindP t hmem hp) (fun h => by simp [hp] at h)
-      (fun _ => hs.seqP t hmem hp)
+      (fun _ => hs.seqP t hmem hp) (fun h => by simp [hp] at h) (fun h => by simp [hp] at h)
   | inextL hp =>
     exact static_of hs ht rfl rfl hs.timeout (fun _ => hs.kindP t hmem hp) (fun h => by simp [hp] at h)
-      (fun _ => hs.seqP t hmem hp)
+      (fun _ => hs.seqP t hmem hp) (fun h => by simp [hp] at h) (fun h => by simp [hp] at h)
   | inextU hp hpc =>
     have h := afterPull_frame (F := F) tid c.sh t (pull c.inputs t.sid).1
     have hpc' := afterPull_pc (F := F) tid c.sh t (pull c.inputs t.sid).1
     obtain ⟨hip, -, -, hprog, -, -, hrec, hres, -, hto, -⟩ := h
     refine static_of hs ht rfl hip (by rw [hto]; exact hs.timeout) (fun _ => by rw [hprog]; exact hs.kindP t hmem hp)
-      (fun h => by rw [hip, hp] at h; cases h) ?_
+      (fun h => by rw [hip, hp] at h; cases h) ?_ (fun h => by rw [hip, hp] at h; cases h)
+      (fun h => by rw [hip, hp] at h; cases h)
     intro _
     rw [← hs.seqP t hmem hp]
     refine seqOf_eq hrec hres (by rw [hpc]; rfl) ?_
@@ -296,7 +308,8 @@ theorem static_step {c c' : Cfg} {tid : Tid} {alt : Bool} {lbl : String} {t : PT
     have hpc' := afterPull_pc (F := F) tid c.sh t t.hand
     obtain ⟨hip, -, -, hprog, -, -, hrec, hres, -, hto, -⟩ := h
     refine static_of hs ht rfl hip (by rw [hto]; exact hs.timeout) (fun _ => by rw [hprog]; exact hs.kindP t hmem hp)
-      (fun h => by rw [hip, hp] at h; cases h) ?_
+      (fun h => by rw [hip, hp] at h; cases h) ?_ (fun h => by rw [hip, hp] at h; cases h)
+      (fun h => by rw [hip, hp] at h; cases h)
     intro _
     rw [← hs.seqP t hmem hp]
     refine seqOf_eq hrec hres (by rw [hpc]; rfl) ?_
@@ -309,6 +322,7 @@ theorem static_step {c c' : Cfg} {tid : Tid} {alt : Bool} {lbl : String} {t : PT
     have hkd := pcKind_producer_of (hs.kindP t hmem hp) htok hst0 hd
     refine static_of hs ht rfl hip (by rw [hc.1]; exact hs.timeout)
       (fun _ => by rw [hprog, hprog']; exact hs.kindP t hmem hp) (fun h => by rw [hip, hp] at h; cases h) ?_
+      (fun h => by rw [hip, hp] at h; cases h) (fun h => by rw [hip, hp] at h; cases h)
     intro _
     rw [extOf_producer hkd, droppedOf_producer hkd, hs.seqP t hmem hp] at hseq
     simp only [List.append_nil] at hseq
@@ -316,55 +330,87 @@ theorem static_step {c c' : Cfg} {tid : Tid} {alt : Bool} {lbl : String} {t : PT
     rw [seqOf_postProd]; exact hq'
   | cboot0 hp hc =>
     obtain ⟨hkb, hpc0, hr0⟩ := (hs.kindC t hmem hp).1 (Or.inl hc)
+    obtain ⟨he1, he2⟩ := hs.consE t hmem hp
     refine static_of hs ht rfl (by unfold beginIter; split <;> rfl) hs.timeout
       (fun h => by unfold beginIter at h; split at h <;> simp [hp] at h) ?_
-      (fun h => by unfold beginIter at h; split at h <;> simp [hp] at h)
-    intro _
-    unfold beginIter; split <;> simp [hkb]
+      (fun h => by unfold beginIter at h; split at h <;> simp [hp] at h) ?_ ?_
+    · intro _
+      unfold beginIter; split <;> simp [hkb]
+    · intro _; unfold beginIter; split <;> simp
+    · intro _; unfold beginIter; split <;> exact ⟨he1, he2⟩
   | cboot hp hc =>
     obtain ⟨hkb, hpc0, hr0⟩ := (hs.kindC t hmem hp).1 (Or.inl hc)
     exact static_of hs ht rfl rfl hs.timeout (fun h => by simp [hp] at h)
       (fun _ => ⟨fun _ => ⟨hkb, hpc0, hr0⟩, fun h => by simp at h, fun h => by simp at h⟩)
-      (fun h => by simp [hp] at h)
+      (fun h => by simp [hp] at h) (fun _ h => by simp at h) (fun _ => hs.consE t hmem hp)
   | csubmit hp hc =>
     obtain ⟨hkb, hpc0, hr0⟩ := (hs.kindC t hmem hp).1 (Or.inr hc)
+    obtain ⟨he1, he2⟩ := hs.consE t hmem hp
     refine static_of hs ht rfl (by split <;> (try unfold beginIter) <;> (try split) <;> rfl) hs.timeout
       (fun h => by split at h <;> (try unfold beginIter at h) <;> (try split at h) <;> simp [hp] at h) ?_
-      (fun h => by split at h <;> (try unfold beginIter at h) <;> (try split at h) <;> simp [hp] at h)
-    intro _
-    split
-    · unfold beginIter; split <;> simp [hkb]
-    · simp [hc, hkb, hpc0, hr0]
+      (fun h => by split at h <;> (try unfold beginIter at h) <;> (try split at h) <;> simp [hp] at h) ?_ ?_
+    · intro _
+      split
+      · unfold beginIter; split <;> simp [hkb]
+      · simp [hc, hkb, hpc0, hr0]
+    · intro _
+      split
+      · unfold beginIter; split <;> simp
+      · simp [hc]
+    · intro _
+      split
+      · unfold beginIter; split <;> exact ⟨he1, he2⟩
+      · exact ⟨he1, he2⟩
   | @citer lbl s' q' hp hc hst =>
     obtain ⟨htok', hprog', -⟩ := stepThread_data lbl s' q' hst htok
     have hkb : t.q.prog.kind = .batch := (hs.kindC t hmem hp).2.1 hc
+    obtain ⟨he1, he2⟩ := hs.consE t hmem hp
     by_cases hne : t.q.pc = .eNext
     · have := htok.kind .producer (by rw [hne]; rfl); rw [hkb] at this; cases this
     have hctl := stepThread_ctl lbl s' q' hst hne
+    obtain ⟨-, -, -, -, -, hA, -, -, -⟩ := stepThread_arm lbl s' q' hst hne
     have hip : (afterIter c t.q.pc s' { t with q := q' }).2.isProd = false := by
       unfold afterIter; (repeat' split) <;> exact hp
     refine static_of hs ht rfl (by rw [hip, hp]) ?_ (fun h => by rw [hip] at h; cases h) ?_
-      (fun h => by rw [hip] at h; cases h)
+      (fun h => by rw [hip] at h; cases h) ?_ ?_
     · have : (afterIter c t.q.pc s' { t with q := q' }).1.timeout = s'.timeout := by
         unfold afterIter; (repeat' split) <;> rfl
       rw [this, hctl.1]; exact hs.timeout
     · intro _
       unfold afterIter; (repeat' split) <;> simp [hc, hprog', hkb]
+    · intro _
+      unfold afterIter
+      split
+      · rename_i hb
+        have hb' : t.q.pc = .bRaise := by simpa using hb
+        obtain ⟨hd, -, hr, -, -⟩ := hA hb'
+        split <;> simp [hd, hr]
+      · (repeat' split) <;> simp [hc]
+    · intro _
+      unfold afterIter; (repeat' split) <;> exact ⟨he1, he2⟩
   | @cstop lbl s' q' hp hc hst =>
     obtain ⟨htok', hprog', -⟩ := stepThread_data lbl s' q' hst htok
     have hps : t.q.prog = .stopper none := (hs.kindC t hmem hp).2.2 hc
+    obtain ⟨he1, he2⟩ := hs.consE t hmem hp
     by_cases hne : t.q.pc = .eNext
     · have := htok.kind .producer (by rw [hne]; rfl); rw [hps] at this; cases this
     have hctl := stepThread_ctl lbl s' q' hst hne
     have hip : (postStop t q').isProd = false := by unfold postStop; split <;> exact hp
+    have hres : q'.result = [] := htok'.res (by rw [hprog', hps]; simp [Prog.kind])
     refine static_of hs ht rfl (by rw [hip, hp]) (by rw [hctl.1]; exact hs.timeout)
-      (fun h => by rw [hip] at h; cases h) ?_ (fun h => by rw [hip] at h; cases h)
-    intro _
-    unfold postStop; split <;> simp [hc, hprog', hps]
+      (fun h => by rw [hip] at h; cases h) ?_ (fun h => by rw [hip] at h; cases h) ?_ ?_
+    · intro _
+      unfold postStop; split <;> simp [hc, hprog', hps]
+    · intro _
+      unfold postStop; split
+      · rename_i hd; intro _; exact ⟨by simpa using hd, hres⟩
+      · simp [hc]
+    · intro _
+      unfold postStop; split <;> exact ⟨he1, he2⟩
   | cshutdown hp hc =>
     exact static_of hs ht rfl rfl hs.timeout (fun h => by simp [hp] at h)
       (fun _ => ⟨fun h => by simp at h, fun h => by simp at h, fun h => by simp at h⟩)
-      (fun h => by simp [hp] at h)
+      (fun h => by simp [hp] at h) (fun _ _ => hs.endC t hmem hp (Or.inl hc)) (fun _ => hs.consE t hmem hp)
 
 end MlModel.Piter
 
@@ -392,7 +438,7 @@ theorem mem_init_ths {cap bm mw : Nat} {ns : Option Nat} {soe : Bool} {inputs : 
 
 theorem base_init (cap bm mw : Nat) (ns : Option Nat) (soe : Bool) (inputs : List (List Item))
     (prods : List ProdSpec) : Base (init cap bm mw ns soe inputs prods) := by
-  refine ⟨⟨rfl, ?_, ?_, ?_, ?_⟩, ⟨?_, rfl, ?_, ?_⟩⟩
+  refine ⟨⟨rfl, ?_, ?_, ?_, ?_, ?_, ?_⟩, ⟨?_, rfl, ?_, ?_⟩⟩
   · intro tid t ht
     cases tid with
     | zero => simp only [init, List.getElem?_cons_zero, Option.some.injEq] at ht; subst ht; simp [mkConsumer]
@@ -411,6 +457,14 @@ theorem base_init (cap bm mw : Nat) (ns : Option Nat) (soe : Bool) (inputs : Lis
     rcases mem_init_ths ht with rfl | ⟨p, _, rfl⟩
     · simp [mkConsumer] at hp
     · simp [mkProducer, seqOf, inHand, inHandPc]
+  · intro t ht hp
+    rcases mem_init_ths ht with rfl | ⟨p, _, rfl⟩
+    · simp [mkConsumer]
+    · simp [mkProducer] at hp
+  · intro t ht hp
+    rcases mem_init_ths ht with rfl | ⟨p, _, rfl⟩
+    · simp [mkConsumer]
+    · simp [mkProducer] at hp
   · intro q hq
     simp only [qcfg, List.mem_map] at hq
     obtain ⟨t, ht, rfl⟩ := hq
